@@ -125,7 +125,7 @@ Qed.
 
 Lemma step_wf : forall c s e, WF s -> WF (step c s e).
 Proof.
-  intros c s e W. destruct e as [x|x|x|x|x|x]; unfold step.
+  intros c s e W. destruct e as [x|x|x|x|x|x|x code]; unfold step.
   - (* USR2 *)
     destruct (negb (m_alive (get s x))) eqn:Al; auto.
     destruct (negb (m_reexec (get s x) =? 0)) eqn:Rx; auto.
@@ -182,6 +182,8 @@ Proof.
   - (* WINCH *)
     destruct (m_alive (get s x) && daemon c); auto.
     apply wf_put_same; auto. unfold same_links. simpl. auto.
+  - (* Halt *)
+    destruct (m_alive (get s x)); auto. apply do_exit_wf; auto.
 Qed.
 
 Lemma run_wf : forall c es s, WF s -> WF (run c s es).
@@ -240,7 +242,7 @@ Qed.
 
 Lemma step_sock : forall c s e, WF s -> SockInv c s -> SockInv c (step c s e).
 Proof.
-  intros c s e W S. destruct e as [x|x|x|x|x|x]; unfold step.
+  intros c s e W S. destruct e as [x|x|x|x|x|x|x code]; unfold step.
   - (* USR2: a new master appears only when the file is there *)
     destruct (negb (m_alive (get s x))) eqn:Al; auto.
     destruct (negb (m_reexec (get s x) =? 0)) eqn:Rx; auto.
@@ -292,4 +294,6 @@ Proof.
     + intros Hu Hal. rewrite put_sock. apply S; auto. destruct x; simpl in *; auto.
   - destruct (m_alive (get s x) && daemon c) eqn:Cd; auto.
     intros Hu Hal. rewrite put_sock. apply S; auto. destruct x; simpl in *; auto.
+  - (* Halt *)
+    destruct (m_alive (get s x)) eqn:Al; auto. apply do_exit_sock; auto.
 Qed.
